@@ -85,6 +85,11 @@ class Builder:
         if is_quantity(ty) or name in NUM_TYPES:
             if isinstance(t, bool):
                 raise TypeError(f"bool for {ty}")
+            if isinstance(t, float) and (t != t or t in (float("inf"), float("-inf"))):
+                # special values: IEEE floats in the concrete interpreter, markers in the real-arithmetic engine
+                if self.h.eng.mode == "float":
+                    return t
+                return Opaque("NaN") if t != t else Opaque("+inf" if t > 0 else "-inf")
             if self.h.eng.mode == "float":
                 return float(t)
             return Fraction(t) if not isinstance(t, float) else Fraction(t)
@@ -149,6 +154,10 @@ class Builder:
                 return float(v)
             return v
         if is_quantity(ty) or name in NUM_TYPES:
+            if isinstance(t, float) and t != t:
+                return "__NaN__"
+            if isinstance(t, float) and t in (float("inf"), float("-inf")):
+                return "__+inf__" if t > 0 else "__-inf__"
             return float(t)
         if name in INT_TYPES:
             return int(t)
@@ -247,6 +256,17 @@ class VAcc:
         return self.h.mir.enums[self.v.ty][self.v.variant]
 
 
+class _DefaultState(dict):
+    """a `*State` struct that serde skipped because it equals its Default (`skip_serializing_if = "EqDefault::eq_default"`):
+    step counter 1, every quantity 0"""
+
+    def __contains__(self, k):
+        return True
+
+    def __getitem__(self, k):
+        return 1 if k == "i" else 0.0
+
+
 class JAcc:
     """accessor over serde JSON produced by the native runner (or sent to it)"""
 
@@ -308,6 +328,8 @@ class JAcc:
                 return f.ty, j[f.json_name]
             if f.name in j:
                 return f.ty, j[f.name]
+            if last_seg(f.ty).endswith("State"):
+                return f.ty, _DefaultState()
             raise KeyError(f"{name}.{seg} missing in native JSON")
         raise KeyError(f"step {seg} in {ty}")
 
@@ -329,8 +351,12 @@ MARGIN = None
 
 def _slack(a, b):
     from fractions import Fraction as _F
-    m = _F(MARGIN).limit_denominator(10**9)
-    return m * (1 + ABS(a) + ABS(b))
+    if is_int(a) and is_int(b):
+        return 0  # integer-valued terms (indices, counters) are compared exactly: a margin makes no sense for them
+    m = z3.RealVal(_F(MARGIN).limit_denominator(10**9))
+    ra = z3.ToReal(a) if (is_z3(a) and is_int(a)) else a
+    rb = z3.ToReal(b) if (is_z3(b) and is_int(b)) else b
+    return m * (1 + ABS(ra) + ABS(rb))
 
 
 
